@@ -504,3 +504,25 @@ Proof.
   cbv zeta. intros H. pose proof (run_sinv fb tid_of ops _ (sinv_new rto maxA cc fbh)) as (_ & _ & S3).
   apply S3, H.
 Qed.
+
+(* The interleaved Start / Close, spelled out: a Start that is held between the client's own checks and the agent
+   while Close runs to completion returns the agent's "closed" error; Close has returned nil before it; the
+   client ends closed with nothing registered.  (sinv c: the client's and the agent's tables agree, as after any
+   history.) *)
+Theorem start_race_spec fb c id raw h : sinv c -> c_closed c = false -> T_find id (c_T c) = None ->
+  let '(c', ob) := c_start_race true fb c id raw h in
+  c_closed c' = true /\ c_T c' = [] /\ ag_closed (c_A c') = true /\
+  exists o2, ob = o2 ++ [ORet CNil] ++ [ORet (CAgentErr RClosed)].
+Proof.
+  intros S Ec Ef. pose proof (step_sinv fb (fun _ => 0) c (CStartRace id raw h) S) as S'.
+  cbn [c_step] in S'. unfold c_start_race in *. rewrite Ec, Ef in *. cbn [orb] in *.
+  destruct S as (Cv & S2 & S3). specialize (S2 Ec).
+  set (t := mkTxn (c_next_inst c) id 0 0 h (c_rto c) raw) in *.
+  set (c0 := mkClient _ _ _ _ _ _ _ _ _ _ (c_next_inst c + 1)) in *.
+  set (c1 := upd_T c0 (c_T c0 ++ [t])) in *.
+  destruct (close_core_T fb (set_closed c1) eq_refl S2) as (_ & Ra & Rc).
+  destruct (c_close_core true fb (set_closed c1)) as [c2 o2]. cbn [fst] in Ra, Rc.
+  rewrite (astep_closed_same _ _ Ra) in *. cbn [fst] in S'.
+  destruct S' as (_ & _ & S3'). cbn [c_closed upd_T upd_A] in S3'. destruct (S3' Rc) as [Sa St].
+  split; [exact Rc|]. split; [exact St|]. split; [exact Sa|]. exists o2. reflexivity.
+Qed.
